@@ -173,6 +173,10 @@ def mk_encryptor(b, public_only=False, role="writer"):
     """The encryptor/decryptor object that opens (and writes) block b; None when nobody can (default ECC key)."""
     if b["kind"] == "cust":
         ck = b.get("customer_key")
+        if ck and role == "reader" and ck[1] % 3 == 0:
+            # a reader that holds the block's AES key but NOT the customer key (the form the appnote reads with): it is able to open the block -
+            # the customer key is then simply neither verified nor blanked
+            return B2.SoftwareCustKeyEncryptor(b["crypto_key"])
         if ck and (ck[0] + (role == "reader")) % 2:  # writer and reader of one file are configured in DIFFERENT ways
             # the customer key is configured AFTER construction, through the public attributes
             e = B2.SoftwareCustKeyEncryptor(b["crypto_key"])
